@@ -27,7 +27,7 @@ def norm_events(trace, start):
 
 
 def clocks_used(case):
-    return {case['root']} | {a[2] for s in case['rts'] for a in s if a[0] == 'spawn'}
+    return {case['root']} | {a[2] for s in case['rts'] for a in s if a[0] in ('spawn', 'defer')}
 
 
 def expected_gens(case):
@@ -41,16 +41,16 @@ def expected_gens(case):
             if a[0] in ('spawn', 'pull'):
                 parent.setdefault(a[1], (p, k))
 
-    def gen_at(r, pos):
+    def gen_at(r, pos, own=True):
         g = None
         for k, a in enumerate(case['rts'][r][:pos]):
             if a[0] == 'seed':
-                g = ((r, k), str(a[1]))
+                g = ((r, k), str(a[1]), own)
         if g is not None:
             return g
         if r == 0 or r not in parent:
-            return ('M', 'M')
-        return gen_at(*parent[r])
+            return ('M', 'M', False)
+        return gen_at(*parent[r], own=False)       # inherited at creation: the creator's object of THAT time
     exp = {}
     for r, s in enumerate(case['rts']):
         exp[r] = [gen_at(r, k) for k, a in enumerate(s) if a[0] == 'draw']
@@ -203,6 +203,11 @@ class Check(c05.Check):
                     k = rng.randrange(len(rts[puller]) + 1)
                     rts[puller][k:k] = ([['draw', rng.randrange(len(FORM_NAMES))] for _ in range(rng.randint(0, 2))]
                                         + [['pull', sub]])
+        if single and rng.random() < 0.3:
+            # defer(func, d, clock) = clock.sched(d, func) from a routine playing on that clock
+            r = rng.randrange(n)
+            rts.append([['log']])
+            rts[r].insert(rng.randrange(len(rts[r]) + 1), ['defer', len(rts) - 1, clocks[0], rng.choice(['0', '1/4', '1'])])
         tclk = [int(c[1:]) for c in clocks if c[0] == 't']
         if tclk and (single or rng.random() < 0.3):
             who = 0 if not single else rng.randrange(n)
@@ -234,7 +239,7 @@ class Check(c05.Check):
                 vals = [rng.choice(['1/2', '1', '3', '1/4', '0', '1/1024']) for _ in range(rng.randint(1, 5))]
             late = {'mode': mode, 'vals': vals}
         return {'tempi': tempi, 'root': root, 'rts': rts, 'late': late, 'klass': 'S' if single else 'M',
-                'tail': rng.choice(['0', '0', '1/2', '2'])}
+                'tail': rng.choice(['0', '0', '1/2', '2']), 'rerun': rng.random() < 0.35}
 
     def impl(self, cases):
         outs = super().impl(cases)
@@ -245,8 +250,14 @@ class Check(c05.Check):
             self.notes.append('nrt2: ' + err)
             return None
         for o, o2 in zip(outs, nrt2):
-            o['nrt2'] = {'raw_sha1': o2['raw_sha1'], 'trace': o2['trace'], 'draw_values': o2['draw_values']}
+            o['nrt2'] = {'raw_sha1': o2['raw_sha1'], 'trace': o2['trace'], 'draw_values': o2['draw_values'],
+                         'rerun': self.rerun_key(o2)}
         return outs
+
+    @staticmethod
+    def rerun_key(o):
+        r = o.get('rerun')
+        return None if not r else [r['raw_sha1'], r['trace'], r['draw_values']]
 
     # ---- oracle -----------------------------------------------------------------------------------
     def oracle(self, case, out):
@@ -264,14 +275,14 @@ class Check(c05.Check):
         if 'inf' in nrt['trace']:
             return {'what': 'NRT: a routine that yielded inf was woken again at logical time inf (real time never '
                             'wakes it)', 'signature': 'c10:inf'}
-        for mode, o in (('nrt', nrt), ('rt', rt)):
+        for mode, o in (('nrt', nrt), ('rt', rt), ('nrt replay', nrt.get('rerun')), ('rt replay', (rt or {}).get('rerun'))):
             if o is not None and o.get('draw_diag'):
                 return {'what': f'{mode}: a builtin random function did not read exactly the one generator of the '
                                 f'calling routine: {o["draw_diag"][0]} (M = the main thread\'s generator)',
                         'signature': 'c10:rgen:wrong-generator'}
         # determinism: two fresh NRT processes
         if (out['nrt2']['raw_sha1'] != nrt['raw_sha1'] or out['nrt2']['trace'] != nrt['trace']
-                or out['nrt2']['draw_values'] != nrt['draw_values']):
+                or out['nrt2']['draw_values'] != nrt['draw_values'] or out['nrt2']['rerun'] != self.rerun_key(nrt)):
             return {'what': 'two fresh NRT runs of the same seeded program differ (score bytes or logged values)',
                     'signature': 'c10:nondeterministic'}
         if nrt['task_times'] and nrt['elapsed'] != nrt['task_times'][-1]:
@@ -283,9 +294,13 @@ class Check(c05.Check):
         for mode, o, start in (('nrt', nrt, F(0)), ('rt', rt, F(rt['start']) if rt else None)):
             if o is None:
                 continue
-            evs, _, _ = parse_trace(o['trace'])
-            seen, per_r = {}, {}
-            for p in evs:
+            plays = [(1, parse_trace(o['trace'])[0])]
+            if o.get('rerun'):
+                plays.append((2, parse_trace(o['rerun']['trace'])[0]))
+            seen, loose = {}, False
+            for play, evs in plays:
+              per_r = {}
+              for p in evs:
                 if p[0] == 'D':
                     r, g, i = int(p[1]), p[2], p[3]
                     if g == '?':
@@ -296,21 +311,51 @@ class Check(c05.Check):
                     per_r[r] = k + 1
                     if k >= len(exp_gen[r]):
                         continue
-                    ident, seed = exp_gen[r][k]
+                    ident, seed, own = exp_gen[r][k]
+                    # a routine object played again keeps the generator OBJECT it holds: a generator inherited at
+                    # creation is still the first play's object; its own `seed` action makes a new one each play
+                    ident = (ident, play if own else 1)
+                    if play == 2 and not own and any(a[0] == 'seed' for a in case['rts'][r]):
+                        # before its own `seed` action the object still holds whatever it held at the end of the
+                        # first play (depends on how far that got): judged by the model comparison only
+                        loose = True
+                        continue
+                    if play == 2:
+                        mode = mode.split(' ')[0] + ' (second play of the same routine objects)'
                     if seed != g:
                         return {'what': f'{mode}: draw #{k} of routine {r} came from a generator seeded {g}; its own '
                                         f'seed / the generator inherited at creation is seeded {seed} '
                                         f'(M = the main thread\'s generator)', 'signature': 'c10:rgen:inherit'}
-                    if i != seen.get(ident, 0):
+                    if not loose and i != seen.get(ident, 0):
                         return {'what': f'{mode}: draw #{k} of routine {r} got stream index {i} of its generator '
                                         f'(seed {seed}, created at {ident}); {seen.get(ident, 0)} was due — the '
                                         f'generator is shared with, or was advanced by, someone it must not be',
                                 'signature': 'c10:rgen:stream'}
                     seen[ident] = i + 1
+        interferes = any(x[0] in ('pause', 'resume', 'stop', 'wait', 'sig') for s in case['rts'] for x in s)
+        if nrt.get('rerun') and not interferes:
+            # (with pause / resume / stop the second play legitimately differs: the targets exist already)
+            nd1 = [e for e in norm_events(nrt['trace'], F(0))[0] if e[0] != 'D']
+            nd2 = [e for e in norm_events(nrt['rerun']['trace'], F(0))[0] if e[0] != 'D']
+            if nd1 != nd2:
+                k = next((i for i, (x, y) in enumerate(zip(nd1, nd2)) if x != y), min(len(nd1), len(nd2)))
+                return {'what': f'NRT: the same routine objects reset and played again after main.reset() do not '
+                                f'repeat the first play: event #{k} was {nd1[k] if k < len(nd1) else "(end)"}, now '
+                                f'{nd2[k] if k < len(nd2) else "(end)"}', 'signature': 'c10:replay'}
         if rt is None:
             return None
         if rt.get('error'):
             return {'what': f'RT run failed: {rt["error"]}', 'signature': 'c10:error:rt'}
+        if single and nrt.get('rerun') and rt.get('rerun') and not rt['rerun'].get('error'):
+            a2, _, _ = norm_events(nrt['rerun']['trace'], F(0))
+            b2, _, _ = norm_events(rt['rerun']['trace'], F(rt['rerun']['start']))
+            # a paused-then-resumed reset routine goes to its default clock: the replay may use two clock threads
+            one_thread = len({e.split(':')[3] for e in a2 + b2 if e[0] == 'R'}) <= 1
+            if one_thread and (a2 != b2 or nrt['rerun']['draw_values'] != rt['rerun']['draw_values']):
+                k = next((i for i, (x, y) in enumerate(zip(a2, b2)) if x != y), min(len(a2), len(b2)))
+                return {'what': f'second play of the same routine objects: RT and NRT differ at event #{k}: NRT '
+                                f'{a2[k] if k < len(a2) else "(end / values)"} vs RT '
+                                f'{b2[k] if k < len(b2) else "(end / values)"}', 'signature': 'c10:rt-nrt:replay'}
         a, aend, apend = norm_events(nrt['trace'], F(0))
         b, bend, bpend = norm_events(rt['trace'], F(rt['start']))
         if single:
